@@ -454,10 +454,13 @@ package internal
 //@   assigns storeWrites, lastSetOK, entry.Data.Body, bodyReadFailed
 //@   ensures lastSetOK == (result == nil)                                           # ghost-update
 //@   ensures bodyReadFailed ==> result != nil && storeWrites == old(storeWrites)    # name: unreadable-body-not-written
+// lastRefs: the index most recently handed to SetRefs (C19)
+//@ ghost var lastRefs ResponseRefs
 //@ iface ResponseCache.SetRefs(c, key, refs)
-//@   property C06
+//@   property C06 C19
 //@   requires lastSetOK                                                             # name: entry-was-stored
-//@   assigns storeWrites
+//@   assigns storeWrites, lastRefs
+//@   ensures lastRefs == refs                                                       # ghost-update
 // deletedKeys: the keys passed to ResponseCache.Delete during this exchange (C07, C19)
 //@ ghost var deletedKeys Arr[string, bool]
 //@ iface ResponseCache.Delete(c, key)
@@ -470,8 +473,12 @@ package internal
 //@   requires req != nil && resp != nil && resp.Header != nil                       # name: well-formed
 //@   requires storableReq(req)                                                      # name: request-storable
 //@   requires storableResp(resp)                                                    # name: response-storable
-//@   assigns storeWrites, lastSetOK, bodyReadFailed, map(resp.Header), resp.Body, elems(refs), now
+//@   assigns storeWrites, lastSetOK, lastRefs, bodyReadFailed, map(resp.Header), resp.Body, now
 //@   ensures resp.Header != nil
+//@   ensures result == nil ==> len(lastRefs) >= 1 && len(lastRefs) <= len(refs) + 1                                          # name: index-grows-by-at-most-one   props: C19
+//@   ensures result == nil && 0 <= refIndex && refIndex < len(refs) ==> len(lastRefs) <= len(refs)                          # name: replacement-does-not-grow   props: C19 C08
+//@   ensures result == nil ==> (forall j int :: 0 <= j && j < len(lastRefs) ==> lastRefs[j] != nil)                        # name: index-has-no-nil   props: C19 C10
+//@   ensures result == nil ==> (forall j int :: 0 <= j && j < len(lastRefs) - 1 ==> !sameVariantS(lastRefs[j], lastRefs[len(lastRefs)-1].ResponseID, lastRefs[len(lastRefs)-1].VaryResolved))   # name: new-variant-not-duplicated   props: C19
 //@   ensures bodyReadFailed ==> storeWrites == old(storeWrites)                     # name: nothing-written-when-body-unreadable
 
 //@ iface CacheInvalidator.InvalidateCache(ci, reqURL, respHeader, refs, key)
@@ -640,10 +647,24 @@ package internal
 //@   requires resp != nil && resp.Header != nil
 //@   assigns map(resp.Header)
 
+// two references denote the same stored variant: same response id selected by equal resolved header values
+//@ spec func sameVariantS(a *ResponseRef, id string, vr map[string]string) bool = a.ResponseID == id && hasArr(a.VaryResolved) == hasArr(vr) && (forall k string :: has(vr, k) ==> get(a.VaryResolved, k) == get(vr, k))
+//@ extern maps.Equal(m1, m2)
+//@   pure
+//@   ensures result == (hasArr(m1) == hasArr(m2) && (forall k string :: has(m2, k) ==> get(m1, k) == get(m2, k)))
+//@ func sameVariant
+//@   property C19
+//@   pure
+//@   requires a != nil && b != nil
+//@   ensures result == sameVariantS(a, b.ResponseID, b.VaryResolved)            # name: id-and-values
 //@ func (*responseStorer).StoreResponse
 //@   implements ResponseStorer.StoreResponse
-//@   property C06 C10
+//@   property C06 C10 C19
 //@   requires r != nil && r.cache != nil && r.vhn != nil && r.vk != nil
+//@   loop 0 invariant -1 <= rangeindex && rangeindex < len(refs) && 0 <= len(updated) && len(updated) <= rangeindex + 1
+//@   loop 0 invariant 0 <= refIndex && refIndex <= rangeindex ==> len(updated) <= rangeindex
+//@   loop 0 invariant forall j int :: 0 <= j && j < len(updated) ==> updated[j] != nil && !sameVariantS(updated[j], responseID, varyResolved)
+//@   loop 0 invariant lastSetOK && fresh(updated)
 
 //@ extern maps.Collect(seq)
 //@   pure
@@ -695,7 +716,7 @@ package internal
 // ---- C07 / C19: invalidation deletes every variant and the index -------------------------------------
 //@ func (ResponseRefs).ResponseIDs$1
 //@   property C07 C19
-//@   requires allRefsNonNil(*he)
+//@   requires he != nil && yield != nil && allRefsNonNil(*he)
 //@   yields len(*he) :: (*he)[k].ResponseID
 //@   loop 0 invariant -1 <= rangeindex && rangeindex < len(*he) && yielded == rangeindex + 1 && !stopped
 //@ func (ResponseRefs).ResponseIDs
@@ -708,7 +729,7 @@ package internal
 // del: delete a key once (closure of InvalidateCache over `deleted` and the receiver)
 //@ func (*cacheInvalidator).InvalidateCache$1
 //@   property C07 C19
-//@   requires *r != nil && (*r).cache != nil && *deleted != nil
+//@   requires r != nil && deleted != nil && *r != nil && (*r).cache != nil && *deleted != nil
 //@   requires forall x string :: has(*deleted, x) ==> deletedKeys[x]                                       # name: local-set-is-deleted
 //@   assigns storeWrites, deletedKeys, map(*deleted)
 //@   ensures deletedKeys[k] && has(*deleted, k)                                                            # name: key-deleted
